@@ -14,5 +14,5 @@ def queries(tier):
             b = {'IsEqual': 6, 'C03_escape_html.cpp:Write': 6 * L + 1, 'Write': max(L + 1, 7), '.*(esc2|CmpStream).*': 6 * L + 1,
                  'EscapeHTMLSpecialChars': L + 1, 'vf_buf.*': L + 1, 'dec_in': L + 1, 'dec_out': 6 * L + 1}
             for e in ('h_safe', 'h_decode', 'h_idem'):
-                qs.append(Query('%s/%s/L%d' % (e[2:], ch, L), 'C03_escape_html.cpp', e, {'L': L, 'CHAR': ch}, bounds=b, timeout=300, mem_gb=8))
+                qs.append(Query('%s/%s/L%d' % (e[2:], ch, L), 'C03_escape_html.cpp', e, {'L': L, 'CHAR': ch}, bounds=b, timeout=300, mem_gb=8, backend=__import__('os').environ.get('C03_BACKEND', 'sat')))
     return qs
